@@ -91,10 +91,11 @@ func runC17Tamper(x *mc.X) {
 	vname := mc.Pick(x, "value", []string{"0B", "1B", "40B", "index", "entry", "4KiB"})
 	keyLen := mc.Pick(x, "key-bytes", []int{16, 24, 32})
 	family := mc.Pick(x, "family", []string{"substitute", "truncate", "extend", "xor-two-positions", "wrong-key", "same-value-twice"})
+	mtime := x.Choose("update_mtime", 2) == 1
 	val := c17Values()[vname]
 	dir := c17Dir()
 	defer os.RemoveAll(dir)
-	conn, err := fscache.Open("app", fscache.WithBaseDir(dir), fscache.WithEncryption(c17Key(keyLen, 0x11)))
+	conn, err := fscache.Open("app", fscache.WithBaseDir(dir), fscache.WithEncryption(c17Key(keyLen, 0x11)), fscache.WithUpdateMTime(mtime))
 	if err != nil {
 		x.Failf("open with a valid key failed", "%v", err)
 		return
@@ -219,7 +220,7 @@ func runC17Tamper(x *mc.X) {
 	case "wrong-key":
 		for _, kl := range []int{16, 24, 32} {
 			for _, fill := range []byte{0x12, 0x00, 0xFF} {
-				other, err := fscache.Open("app", fscache.WithBaseDir(dir), fscache.WithEncryption(c17Key(kl, fill)))
+				other, err := fscache.Open("app", fscache.WithBaseDir(dir), fscache.WithEncryption(c17Key(kl, fill)), fscache.WithUpdateMTime(mtime))
 				if err != nil {
 					x.Failf("open with another valid key failed", "%v", err)
 					return
@@ -256,8 +257,8 @@ func runC17Tamper(x *mc.X) {
 	}
 	x.Transitions(mutants)
 	x.Evals(mutants)
-	x.Nontrivial(fmt.Sprintf("%s/%s/key%d", family, vname, keyLen))
-	x.State(family, vname, fmt.Sprint(keyLen), fmt.Sprint(mutants == rejected))
+	x.Nontrivial(fmt.Sprintf("%s/%s/key%d/mtime=%v", family, vname, keyLen, mtime))
+	x.State(family, vname, fmt.Sprint(keyLen, mtime), fmt.Sprint(mutants == rejected))
 	x.Sample(map[string]any{"family": family, "value": vname, "key_bytes": keyLen, "file_bytes": len(orig), "mutants": mutants, "rejected": rejected})
 }
 
@@ -272,6 +273,7 @@ func c17KeySpecs() []c17KeySpec {
 	return []c17KeySpec{
 		{"valid16", c17Key(16, 0x21), true}, {"valid24", c17Key(24, 0x22), true}, {"valid32", c17Key(32, 0x23), true},
 		{"empty", "", false}, {"bad-base64", "!!!not-base64!!!", false}, {"std-alphabet", std, false},
+		{"blank-space", " ", false}, {"blank-newline", "\n", false}, {"blank-tab-crlf", "\t\r\n", false},
 		{"10-bytes", c17Key(10, 0x24), false}, {"33-bytes", c17Key(33, 0x25), false}, {"unpadded32", strings.TrimRight(c17Key(32, 0x26), "="), false},
 	}
 }
